@@ -49,11 +49,11 @@ ASSUMPTIONS = [
     "scipy.linalg.kron shim supplied by the harness; single-threaded BLAS; exact float comparison",
 ]
 
-FAULT_KINDS = ["batch_split", "worker_reuse", "proc_reorder", "thread_preempt", "clock_jump_fwd", "clock_jump_back", "global_rng_pollution", "crash_at_file_write", "torn_write", "stale_output_dir", "pollution_inside_run", "worker_started_elsewhere"]
+FAULT_KINDS = ["batch_split", "worker_reuse", "proc_reorder", "thread_preempt", "clock_jump_fwd", "clock_jump_back", "global_rng_pollution", "crash_at_file_write", "torn_write", "stale_output_dir", "pollution_inside_run", "worker_started_elsewhere", "task_exception"]
 
 PROBES = [
     "two_tasks_in_flight_in_threads", "switch_on_hot_line_of_mutator_function", "switch_inside_loss_or_algo_configuration_or_optimize", "switch_inside_composite_system_table_code",
     "batch_with_2plus_tasks_sharing_objects", "worker_reused_with_dirty_global_rng", "backwards_clock_inside_timed_section",
     "H7_verdict_ok", "H7_verdict_ng", "H7_undecided", "H5_decisive", "H5_trivial",
-    "crash_survivor_reestimated", "crash_survivor_unreadable", "crash_full_reestimate_returned", "crash_full_reestimate_raised",
+    "task_failure_propagated", "crash_survivor_reestimated", "crash_survivor_unreadable", "crash_full_reestimate_returned", "crash_full_reestimate_raised",
 ]
